@@ -77,6 +77,7 @@ CLAUSE_PROPERTY = {
     "TM_ESS": "C12",
     "TM_Evidence": "C12",
     "TM_CallsExact": "C13",
+    "TM_HistoryUntouched": "C17",
     "NoRaise": "C18",
     "RZ_UnfittedPredict": "C14",
     "RZ_SaveFailed": "C08",
@@ -707,7 +708,9 @@ class Recorder:
         base = getattr(self, "_calls_at_entry", None)
         reported = int(st.get_current("calls") or 0)
         seen = reported if base is None else int(base[0] + (self.evals - base[1]))
-        self._emit("Terminate", evid=1, evidAt=1 if same else 2, callsReported=reported, callsSeen=seen, **t)
+        dg = self._batch_digests(st)
+        hist_same = dg == getattr(self, "_prefix_digests", dg)
+        self._emit("Terminate", evid=1, evidAt=1 if same else 2, callsReported=reported, callsSeen=seen, histSame=bool(hist_same), **t)
         t.setdefault("_dbg", {}).update(evid=evid, evidRef=rz)
         if getattr(self, "expect_final_save", False):
             if not hasattr(self, "final_expected"):
